@@ -325,6 +325,28 @@ theorem cancel_returns {s : State} (h : Reachable s) (t c : Nat) (hpc : s.pc t =
   · intro x hx
     simp [hx]
 
+/-! ## the chained cleaner -/
+
+/-- `NewChainedCleaner`: the result is nil **iff** every cleaner returned nil —
+for every list of cleaners and every combination of outcomes (in particular a
+failure at any position, followed by any number of successes, is reported). -/
+theorem chained_nil_iff (outs : List Nat) : (chained outs).1 = 0 ↔ ∀ o, o ∈ outs → o = 0 := by
+  unfold chained
+  rw [chainedFrom_fst_zero_iff]
+  simp
+
+/-- ... the error returned is the first one observed, ... -/
+theorem chained_first_error (outs : List Nat) : (chained outs).1 = (outs.find? (· ≠ 0)).getD 0 := by
+  unfold chained
+  rw [chainedFrom_fst]; rfl
+
+/-- ... and every cleaner is invoked, also after a failure. -/
+theorem chained_invokes_all (outs : List Nat) : (chained outs).2 = outs.length := by
+  unfold chained
+  rw [chainedFrom_snd]; omega
+
+example : chained [0, 3, 0, 5] = (3, 4) ∧ chained [0, 0] = (0, 2) ∧ chained [7, 0, 0] = (7, 3) := by decide
+
 /-! ### non-vacuity: concrete reachable states -/
 
 /-- thread 0 is cleaning for its Acquire, threads 1 and 2 are parked behind it -/
